@@ -1,2 +1,113 @@
-(* handlers for the tree / history model (filled in as the model grows) *)
-let handle (_ask : string -> string) (_words : string list) : string option = None
+(* handlers for the tree / history model: keeps the current tree, applies steps, prints observations as JSON
+   in which every string is a text token (hex code points joined by '.', '-' when empty). *)
+open Model
+
+let rec pos_of_int i = if i = 1 then XH else if i land 1 = 0 then XO (pos_of_int (i lsr 1)) else XI (pos_of_int (i lsr 1))
+let n_of_int i = if i = 0 then N0 else Npos (pos_of_int i)
+let rec int_of_pos = function XH -> 1 | XO p -> 2 * int_of_pos p | XI p -> 2 * int_of_pos p + 1
+let int_of_n = function N0 -> 0 | Npos p -> int_of_pos p
+let int_of_z = function Z0 -> 0 | Zpos p -> int_of_pos p | Zneg p -> - (int_of_pos p)
+let hexval c = match c with
+  | '0'..'9' -> Char.code c - 48 | 'a'..'f' -> Char.code c - 87 | 'A'..'F' -> Char.code c - 55 | _ -> failwith "bad hex"
+let bytes_of_hex s =
+  if s = "-" then [] else
+  let n = String.length s / 2 in
+  let rec go i acc = if i < 0 then acc else go (i - 1) (n_of_int (hexval s.[2*i] * 16 + hexval s.[2*i+1]) :: acc) in
+  go (n - 1) []
+let hex_of_bytes l =
+  if l = [] then "-" else begin
+    let b = Buffer.create 64 in
+    List.iter (fun x -> Buffer.add_string b (Printf.sprintf "%02x" (int_of_n x))) l; Buffer.contents b end
+let text_of_tok s = if s = "-" then [] else List.map (fun h -> n_of_int (int_of_string ("0x" ^ h))) (String.split_on_char '.' s)
+let tok_of_text l = if l = [] then "-" else String.concat "." (List.map (fun x -> Printf.sprintf "%x" (int_of_n x)) l)
+(* a path token: components joined by '/', "." for the empty path *)
+let path_of_tok s = if s = "." then [] else List.map text_of_tok (String.split_on_char '/' s)
+let tok_of_path p = if p = [] then "." else String.concat "/" (List.map tok_of_text p)
+let ascii s = List.map (fun c -> n_of_int (Char.code c)) (List.init (String.length s) (String.get s))
+let fmt_of_tok s = match fmt_of_name (ascii s) with Some f -> f | None -> failwith ("unknown format " ^ s)
+let tok_of_fmt f = String.concat "" (List.map (fun x -> String.make 1 (Char.chr (int_of_n x))) (fmt_name f))
+
+(* ---- token stream ---- *)
+let toks = ref ([] : Stdlib.String.t list)
+let next () = match !toks with [] -> failwith "unexpected end of request" | x :: r -> toks := r; x
+let next_int () = int_of_string (next ())
+let next_list f = let n = next_int () in List.init n (fun _ -> f ())
+let next_text () = text_of_tok (next ())
+let next_path () = path_of_tok (next ())
+let next_bool () = next () = "1"
+
+let rec next_node () : n node =
+  match next () with
+  | "F" -> File (bytes_of_hex (next ()))
+  | "D" -> let n = next_int () in
+    let kids = List.init n (fun _ -> let name = next_text () in let k = next_node () in (name, k)) in
+    Dir (None, kids)
+  | t -> failwith ("bad node tag " ^ t)
+
+(* ---- JSON printing ---- *)
+let jstr s = "\"" ^ s ^ "\""
+let jlist f l = "[" ^ String.concat "," (List.map f l) ^ "]"
+let jopt f = function None -> "null" | Some x -> f x
+let jtext t = jstr (tok_of_text t)
+let jpath p = jstr (tok_of_path p)
+let jaction = function Original -> jstr "original" | Verified -> jstr "verified" | Failed -> jstr "failed" | New -> jstr "new"
+let jentry e = "[" ^ String.concat "," [jstr (tok_of_fmt e.e_fmt); jtext e.e_digest; jopt jaction e.e_action; jopt jtext e.e_struct] ^ "]"
+let jrecord r =
+  Printf.sprintf "{\"path\":%s,\"dir\":%s,\"size\":%s,\"entries\":%s,\"prev\":%s}"
+    (jpath r.r_path) (if r.r_dir then "true" else "false") (jopt (fun n -> string_of_int (int_of_n n)) r.r_size)
+    (jlist jentry r.r_entries) (jopt jpath r.r_prev)
+let jgen (h, g) =
+  Printf.sprintf "{\"hist\":%s,\"no\":%d,\"records\":%s,\"root\":%s,\"patterns\":%s,\"refs\":%s,\"process\":%s}"
+    (jpath h) (int_of_n g.g_no) (jlist jrecord g.g_records)
+    (jopt (jlist (fun e -> "[" ^ String.concat "," [jstr (tok_of_fmt e.e_fmt); jtext e.e_digest; jopt jtext e.e_struct] ^ "]")) g.g_root)
+    (jlist jtext g.g_patterns) (jlist (fun (p, n) -> "[" ^ jpath p ^ "," ^ string_of_int (int_of_n n) ^ "]") g.g_refs)
+    (match g.g_process with InPlace -> jstr "in-place" | Flatten -> jstr "flatten")
+let jinfo = function
+  | IHist p -> "[\"H\"," ^ jpath p ^ "]"
+  | IGen n -> "[\"G\"," ^ string_of_int (int_of_n n) ^ "]"
+  | IFile p -> "[\"F\"," ^ jpath p ^ "]"
+  | IEntry (n, f, d, a) -> "[\"E\"," ^ string_of_int (int_of_n n) ^ "," ^ jstr (tok_of_fmt f) ^ "," ^ jtext d ^ "," ^ jopt jaction a ^ "]"
+let jobs o =
+  Printf.sprintf "{\"outcome\":%s,\"written\":%s,\"missing\":%s,\"mismatch\":%s,\"new\":%s,\"ops\":%s,\"info\":%s}"
+    (match o.o_outcome with Exit c -> "[\"exit\"," ^ string_of_int (int_of_z c) ^ "]" | Abort -> "[\"abort\",\"\"]")
+    (jlist jgen o.o_written) (jlist jpath o.o_missing) (jlist jpath o.o_mismatch) (jlist jpath o.o_new)
+    (jlist (fun (k, p) -> "[" ^ string_of_int (int_of_n k) ^ "," ^ jpath p ^ "]") o.o_ops) (jlist jinfo o.o_info)
+
+(* ---- state ---- *)
+let tree : n node ref = ref (Dir (None, []))
+(* the manifest content type is instantiated with N: 0 = as written, anything else = tampered; its digest text
+   is the one-element text [c], so distinct contents have distinct digests in the run *)
+let cdig (c : n) : text = [c]
+let ser (_ : gen) : n = N0
+
+let handle (ask : Stdlib.String.t -> Stdlib.String.t) (words : Stdlib.String.t list) : Stdlib.String.t option =
+  let hb f b = bytes_of_hex (ask ("H " ^ tok_of_fmt f ^ " " ^ hex_of_bytes b)) in
+  let matches pats s = ask ("M " ^ string_of_int (List.length pats) ^ " " ^ String.concat " " (List.map tok_of_text pats @ [tok_of_text s])) = "1" in
+  let step s = let (t', o) = do_step hb matches cdig ser !tree s in tree := t'; Some (jobs o) in
+  match words with
+  | "init" :: rest -> toks := rest; tree := next_node (); Some "ok"
+  | "create" :: rest ->
+    toks := rest;
+    let root = next_path () in
+    let req = next_list (fun () -> fmt_of_tok (next ())) in
+    let no_dh = next_bool () in let dr = next_bool () in
+    let sf = next_list next_path in
+    let ipats = next_list next_text in
+    let ifile = if next_bool () then Some (next_list next_text) else None in
+    step (SCreate (root, req, no_dh, dr, sf, ipats, ifile))
+  | "verify" :: rest ->
+    toks := rest;
+    let root = next_path () in
+    let sf = if next_bool () then Some (next_path ()) else None in
+    let ipats = next_list next_text in
+    step (SVerify (root, sf, ipats))
+  | "diff" :: rest -> toks := rest; let root = next_path () in let ipats = next_list next_text in step (SDiff (root, ipats))
+  | ["set"; p; data] -> step (SSet (path_of_tok p, bytes_of_hex data))
+  | ["mkdir"; p] -> step (SMkdir (path_of_tok p))
+  | ["delete"; p] -> step (SDelete (path_of_tok p))
+  | ["rename"; p; q] -> step (SRename (path_of_tok p, path_of_tok q))
+  | ["touch"; p] -> step (STouch (path_of_tok p))
+  | ["tamper"; h; g] -> step (STamper (path_of_tok h, n_of_int (int_of_string g), n_of_int 1))
+  | ["rmmanifest"; h; g] -> step (SRmManifest (path_of_tok h, n_of_int (int_of_string g)))
+  | ["rmchain"; h] -> step (SRmChain (path_of_tok h))
+  | _ -> None
